@@ -25,6 +25,6 @@ PROP = {
         "shards": {"quick": 12, "thorough": 16},
         "watchdog": {"quick": 900, "thorough": 5400},
         "floors": {"quick": {"nontrivial": 250, "retransmit_checks": 2000, "retransmit_nonempty": 300, "oracle_ledger": 300},
-                   "thorough": {"nontrivial": 8000}},
+                   "thorough": {"nontrivial": 2800}},
     }],
 }
